@@ -134,7 +134,7 @@ impl Check for C01 {
                 // the file-system path, fault-free
                 let fs = SimFs::new(&io);
                 let _g = fs.install();
-                match guard(|| lib.save(OUT)) {
+                match guard(|| lib.save(fs.sp(OUT))) {
                     Err(p) => out.violation = Some(panic_violation("GdsLibrary::save", &p, json!({"library": lib_artefact(&lib)}))),
                     Ok(Err(e)) => out.violation = Some(viol("not-transparent", "save/fault-free/result".into(), format!("save failed without any fault although write succeeded: {}", e), &lib, Value::Null)),
                     Ok(Ok(())) => {
@@ -144,7 +144,7 @@ impl Check for C01 {
                     }
                 }
                 if out.violation.is_none() {
-                    match guard(|| GdsLibrary::open(OUT)) {
+                    match guard(|| GdsLibrary::open(fs.sp(OUT))) {
                         Err(p) => out.violation = Some(panic_violation("GdsLibrary::open", &p, json!({"library": lib_artefact(&lib)}))),
                         Ok(Err(e)) => out.violation = Some(viol("readback-error", format!("open:{}", gds_err_sig(&e)), format!("saved file does not open: {}", truncate(&e.to_string(), 300)), &lib, Value::Null)),
                         Ok(Ok(l3)) => {
@@ -182,7 +182,7 @@ impl Check for C01 {
                     let rpol = benign(&mut io.borrow_mut().ftape);
                     extra ^= policy_digest(&wpol).rotate_left(7) ^ policy_digest(&rpol).rotate_left(13) ^ cap.unwrap_or(0) as u64;
                     fs.plan(OUT, FilePlan { write: wpol.clone(), read: rpol.clone(), ..Default::default() });
-                    match guard(|| lib.save(OUT)) {
+                    match guard(|| lib.save(fs.sp(OUT))) {
                         Err(p) => out.violation = Some(panic_violation("GdsLibrary::save(benign)", &p, json!({"library": lib_artefact(&lib)}))),
                         Ok(Err(e)) => out.violation = Some(viol("not-transparent", "save/benign/result".into(), format!("save fails under benign schedule {:?} cap {:?}: {}", wpol, cap, e), &lib, Value::Null)),
                         Ok(Ok(())) => {
@@ -193,7 +193,7 @@ impl Check for C01 {
                     }
                     // (3) open through a benign source
                     if out.violation.is_none() {
-                        match guard(|| GdsLibrary::open(OUT)) {
+                        match guard(|| GdsLibrary::open(fs.sp(OUT))) {
                             Err(p) => out.violation = Some(panic_violation("GdsLibrary::open(benign)", &p, json!({"library": lib_artefact(&lib)}))),
                             Ok(Err(e)) => out.violation = Some(viol("not-transparent", format!("open/benign/result:{}", gds_err_sig(&e)), format!("open fails under benign read schedule {:?}: {}", rpol, truncate(&e.to_string(), 300)), &lib, Value::Null)),
                             Ok(Ok(l3)) => {
@@ -268,7 +268,7 @@ impl Check for C01 {
                     extra ^= policy_digest(&wpol).rotate_left(9) ^ cap.unwrap_or(0) as u64 ^ create_err as u64;
                     fs.plan(OUT, FilePlan { write: wpol.clone(), create_err: if create_err { Some(std::io::ErrorKind::PermissionDenied) } else { None }, ..Default::default() });
                     let before = io.borrow().errors_returned.len();
-                    match guard(|| lib.save(OUT)) {
+                    match guard(|| lib.save(fs.sp(OUT))) {
                         Err(p) => out.violation = Some(panic_violation("GdsLibrary::save(terminal)", &p, json!({"library": lib_artefact(&lib)}))),
                         Ok(Err(_)) => out.probes.hit("save_terminal_err_reported"),
                         Ok(Ok(())) => {
@@ -303,7 +303,7 @@ impl Check for C01 {
                     extra ^= policy_digest(&rpol).rotate_left(21);
                     fs.plan(INP, FilePlan { read: rpol.clone(), ..Default::default() });
                     let before = io.borrow().errors_returned.len();
-                    match guard(|| GdsLibrary::open(INP)) {
+                    match guard(|| GdsLibrary::open(fs.sp(INP))) {
                         Err(p) => out.violation = Some(panic_violation("GdsLibrary::open(terminal)", &p, json!({"library": lib_artefact(&lib)}))),
                         Ok(Err(_)) => out.probes.hit("open_terminal_err_reported"),
                         Ok(Ok(l3)) => {
